@@ -76,7 +76,20 @@ def run_ops(case: Dict[str, Any]) -> Dict[str, Any]:
                 # move inside the search cell, across, or back to a previously visited cell
                 g = rnd.choice(visited[i]) if visited.get(i) and rnd.random() < 0.3 else geo()
                 desc = f"modify {i}->{g}"
-                if kind == "v":
+                if kind == "v" and i in sim.vehicles and rnd.random() < 0.25:
+                    # several vehicles relocated in one call (an external rebalancing model), handed over as a list, a tuple or
+                    # a one-shot iterator - the argument is typed Iterable
+                    batch = [(i, g)] + [(x, geo()) for x in [y for y in sorted(sim.vehicles) if y != i][: rnd.randint(0, 2)]]
+                    ents = [sim.vehicles[x].modify_position(sim.road_network.position_from_geoid(gx)) for x, gx in batch]
+                    form = rnd.choice(["list", "tuple", "generator", "map"])
+                    arg = ents if form == "list" else tuple(ents) if form == "tuple" else (e for e in ents) if form == "generator" else map(lambda e: e, ents)
+                    desc = f"modify_entities({form}) {batch}"
+                    res = sso.modify_entities_safe(sim, arg)
+                    cnt[f"c08_batch_modifies_{form}"] += 1
+                    if not isinstance(res, Failure):
+                        for x, gx in batch[1:]:
+                            visited[x].append(gx)
+                elif kind == "v":
                     e = sim.vehicles[i].modify_position(sim.road_network.position_from_geoid(g)) if i in sim.vehicles else mock_vehicle_from_geoid(vehicle_id=i, geoid=g)
                     if rnd.random() < 0.5:
                         res = sso.modify_vehicle_safe(sim, e)
